@@ -203,4 +203,21 @@ def crashChecks (env : Env) (key : Option String) (pre x : View) (offer : Option
       (settledPre || offer = some n,
         s!"C04: the state on disk belonged to another release (or was unreadable), yet after the process death the next launch of this release selected patch {n} from it") ]
 
+/-- The property's second sentence, as far as an observer can judge it: after a single I/O error
+    inside a call (execution continues), what the SAME process selects next must still be a patch
+    recorded before (in a readable state of this release) or the one it was installing, not banned
+    before, and intact. -/
+def eioChecks (env : Env) (key : Option String) (pre : View) (offer : Option Nat) (settledPre : Bool)
+    (after : View) (sel : Option Nat) : Checks :=
+  match sel with
+  | none => []
+  | some n =>
+    [ (after.nextNum = some n && (match after.ps.next with | some m => after.valid env key m | none => false),
+        s!"C04: after an I/O error the process selected patch {n}, which is not an intact selected patch"),
+      (!settledPre || !pre.ps.bad.contains n, s!"C04: after an I/O error the process selected patch {n}, which was banned before"),
+      ((slotNums pre).contains n || offer = some n,
+        s!"C04: after an I/O error the process selected patch {n}, which was neither recorded before nor being installed"),
+      (settledPre || offer = some n,
+        s!"C04: the state on disk belonged to another release (or was unreadable), yet after an I/O error during its reset the process selected patch {n} from it") ]
+
 end Updater
